@@ -6,7 +6,7 @@ import os
 import subprocess
 import tempfile
 
-from check_common import NVH, DRIVER
+from check_common import NVH, DRIVER, oracle_key
 
 
 def run_once(R, sname, conf, seed, cases, collect_cmp=True):
@@ -67,7 +67,7 @@ def run(R, sname, conf):
                 msg = parts[2]
                 t = msg.split(":")[0]
                 if t in tags:
-                    key = f"oracle:{t}:{msg.split(':',1)[1].strip()[:60].replace(' ', '_')}"
+                    key = oracle_key(msg)
                     R.violations.append((key, f"implementation violates the property oracle in suite {sname} seed={seed}: {msg}",
                                          {"suite": sname, "seed": seed, "cmd": cmd, "oracle": msg}))
                 continue
